@@ -320,8 +320,8 @@ theorem specRun_congr (ops : List Op) : ∀ (v v' : View) (rs : List Res) (vf : 
 
 theorem safe_key (w : World) (op : Op) (h : OpSafe w op) : OpKeyOK op := by
   cases op <;> try trivial
-  · exact h.2.1
-  · exact h.2.1
+  · exact h.2
+  · exact h.2
   · exact h.2.1
   · exact h.1
 
